@@ -502,6 +502,17 @@ func c04B5(c *Ctx, w *World) {
 	// (2) each candidate is Keccak(hash ‖ counter)
 	inHash := derivesFrom(kec.Call.Args[0], func(v ssa.Value) bool { return v == hashP })
 	inCtr := counter != nil && derivesFrom(kec.Call.Args[0], func(v ssa.Value) bool { return v == counter })
+	// … and of nothing else: the hashed buffer is built in this iteration, not carried over from the previous one
+	carried := derivesFrom(kec.Call.Args[0], func(v ssa.Value) bool {
+		phi, ok := v.(*ssa.Phi)
+		if !ok {
+			return false
+		}
+		_, isSlice := phi.Type().Underlying().(*types.Slice)
+		return isSlice && isLoopHeader(phi.Block())
+	})
+	c.sites++
+	c.Check(fname(cp)+"#candidate-buffer-is-per-seat", kec.Pos(), !carried, ifelse(!carried, "the hashed buffer is built from scratch in every iteration", "the buffer that is hashed is carried from one iteration to the next: seat i is hashed as hash ‖ 1 ‖ 2 ‖ … ‖ i, so for two or more seats the value that verifies is not the largest seat hash"))
 	c.sites++
 	c.Check(fname(cp)+"#candidate-binds-hash-and-seat", kec.Pos(), inHash && inCtr, ifelse(inHash && inCtr, "each candidate hashes the VRF output together with the seat number", fmt.Sprintf("the candidate hash does not cover both the VRF output and the seat number (hash=%v seat=%v)", inHash, inCtr)))
 	// (3) the running maximum is replaced exactly when the candidate is greater, and the hash is kept with its integer
